@@ -108,6 +108,20 @@ def w_cov(case):
                      'underlying model evaluated per individual at vartheta_i (%s)'
                      % lab, 'expected': exp_ll, 'observed': got_ll,
                      'behaviour': 'll'})
+    if case['zero'] == 'bad_later':
+        # outside the domain for the last individual only: the per-individual sum
+        # decides (-inf as soon as one individual's scale is not positive); the
+        # score returned with the sensitivities agrees
+        s_b = m.compute_sensitivities(top_arg(), obs.copy(), cov.copy(),
+                                      dlogp_dpsi=c.copy())[0]
+        if not tol.close(s_b, exp_ll):
+            viol.append({'sub': 'll_rejected', 'message': 'score returned with the '
+                         'sensitivities differs from the underlying model evaluated '
+                         'per individual when a later individual\'s parameters '
+                         'leave the domain (%s)' % lab, 'expected': exp_ll,
+                         'observed': s_b, 'behaviour': 'll'})
+        return {'transitions': ntr + 1, 'outcome': tol.rnd([got_ll]),
+                'violations': viol}
     got_psi = m.compute_individual_parameters(top_arg(), obs.copy(), cov.copy())
     ntr += 1
     if not tol.allclose(got_psi, exp_psi):
@@ -228,6 +242,10 @@ def w_linear(case):
         beta.astype(int) if 'b' in ints else beta.copy(),
         pop.astype(int) if 'p' in ints else pop.copy(),
         cov.astype(int) if 'c' in ints else cov.copy())
+    if case.get('beta_matrix'):
+        # documented alternative: coefficients as a (n_selected, n_cov) matrix
+        got = cm.compute_population_parameters(
+            beta.reshape(len(pairs), n_cov).copy(), pop.copy(), cov.copy())
     exp = np.broadcast_to(pop[np.newaxis], (n_ids, ppd, d)).copy()
     b = beta.reshape(len(pairs), n_cov)
     for j, (p, k) in enumerate(pairs):
@@ -273,6 +291,17 @@ def make_case(inner, n_cov, sel, n_ids, seed, zero='none', history=None,
         cov[:, 0] = 0
     elif zero == 'beta':
         top = list(top[:n_in]) + [0.0] * (len(top) - n_in)
+    elif zero == 'bad_later':
+        # the coefficient of the last selected pair drives that parameter negative
+        # for the LAST individual only (covariates ascending over individuals)
+        cov = np.sort(np.abs(cov), axis=0) + np.arange(n_ids)[:, None] * 2.0
+        top = list(top)
+        pairs_ = rp.selection(spec)
+        ppd_ = rp.per_dim(inner)
+        p_, k_ = pairs_[-1]
+        base_v = top[p_ * d + k_]
+        j_ = n_in + (len(pairs_) - 1) * n_cov
+        top[j_] = -(abs(base_v) + 0.1) / float(cov[-1, 0]) - 0.05
     elif zero == 'int':
         # whole numbers; the underlying parameters are kept large enough for every
         # individual's shifted scale to stay positive (|beta| = 1, covariates < 1.5)
@@ -303,10 +332,24 @@ def build(tier, seed):
                     for n_ids in range(1, max_ids + 1):
                         zs = ['none']
                         if form == 'sorted':
-                            zs = ['none', 'cov', 'beta', 'col', 'int'] \
+                            zs = ['none', 'cov', 'beta', 'col', 'int', 'bad_later'] \
                                 if n_ids == 2 else ['none']
                         for z in zs:
+                            if z == 'bad_later' and (
+                                    not inner.get('centered', True)
+                                    or inner['kind'] == 'P'
+                                    or max(p_ for p_, _ in sel) == 0):
+                                # (only a scale parameter of a centred model has
+                                # a domain to leave; non-centred models score eta
+                                # as standard normal whatever the parameters)
+                                continue
                             cases.append(make_case(inner, n_cov, sel, n_ids, seed, z))
+    # default-constructed models with many (parameter, dimension) pairs: the betas
+    # are named and applied pair by pair in the documented order
+    for k, dims_ in (('G', (4, 6, 9, 12)), ('LNnc', (5, 8)), ('P', (9, 17))):
+        for d in dims_ if tier == 'thorough' else dims_[::2] + dims_[1:2]:
+            inner = popbuild.elem(k, d)
+            cases.append(make_case(inner, 1, None, 2, seed, history=[]))
     # histories: sel1 then sel2 (final = sel2), then dimension / covariate names
     for k in ('G', 'LNnc', 'P'):
         inner = popbuild.elem(k, 2)
@@ -335,6 +378,12 @@ def build(tier, seed):
                 for n_ids in (1, 3):
                     npairs = len(set(map(tuple, sel)))
                     # which of (beta, pop, cov) are whole numbers in integer arrays
+                    lin.append({
+                        'n_cov': n_cov, 'sel': sel, 'ppd': ppd, 'd': d,
+                        'n_ids': n_ids, 'ints': '', 'beta_matrix': True,
+                        'beta': vals.reals('c07.lb', npairs * n_cov, -1, 1, seed),
+                        'pop': vals.reals('c07.lp', ppd * d, 0.5, 3, seed),
+                        'cov': vals.reals('c07.lc', n_ids * n_cov, 0.1, 2, seed)})
                     for ints in ('', 'p', 'b', 'c', 'pb', 'pc', 'bc', 'pbc'):
                         lin.append({
                             'n_cov': n_cov, 'sel': sel, 'ppd': ppd, 'd': d,
